@@ -127,6 +127,15 @@ def run(ctx: Ctx):
                 continue
             ctx.ob("C06.a", inst, True, sl.where, show_leaf(leaf))
             ctx.sample({"env": cname, "checker_literal": lit.name, "code": show_leaf(leaf)})
+            if lit.kind == "cmp" and leaf.cmp() is not None:
+                # term polarity (same rule as C01.q / C05.d): every quantity pushes the accept polynomial in the reference direction
+                pol = nf.polarity(leaf.cmp()[0].to_sym())
+                exp = lit.expected_signs()
+                wrong = {k: sorted(v) for k, v in pol.items() if k in exp and not ((v - {0}) <= exp[k])}
+                ctx.ob("C06.k", inst + ":term-signs", not wrong, sl.where,
+                       f"{show_leaf(leaf)}: " + ("every term enters with the reference sign" if not wrong else
+                                                 "; ".join(f"`{k}` enters with sign(s) {v}, the constraint needs {sorted(exp[k])}" for k, v in wrong.items())),
+                       construct=f"{sl.fi.qualname}:{lit.name}:term-sign:" + ",".join(sorted(wrong)))
             if lit.kind == "cmp" and lit.strict is not None:
                 bad = None
                 for c in cands:
@@ -171,6 +180,7 @@ def run(ctx: Ctx):
             ctx.ob("C06.c", inst, ok, sl.where, why or f"mask {show_leaf(mleaf)}  =>  checker {show_leaf(cleaf)}",
                    construct=f"{sl.fi.qualname}:{cname_lit}:sibling:{mname}" + (":" + ",".join(sorted(miss)) if miss else ""))
     accumulators(ctx)
+    accumulator_signs(ctx)
     per_row_asserts(ctx)
     explained_asserts(ctx)
     gate(ctx)
@@ -327,6 +337,36 @@ def accumulators(ctx: Ctx):
                    f"loop-carried accumulator (init 0) ends the iteration as {vg.show(body, 3)}: {form}" +
                    ("" if ok else " -- it is not reset at the depot after the step's contribution was added (route loads/clocks leak into the next route or are cleared too early)"),
                    construct=f"{sl.fi.qualname}:accumulator:{k}:depot-reset-order")
+
+
+ACC_SIGN = {"|dist|": +1, "demand": +1, "demand_linehaul": +1, "demand_backhaul": +1, "durations": +1, "service_time": +1, "time_windows": +1, "speed": -1}
+
+
+def accumulator_signs(ctx: Ctx):
+    """C06.j: the checker's simulated clocks / loads / lengths move in the right direction: travelled distances, service times,
+    demands and window starts enter each loop-carried accumulator with a + sign, the speed with a - sign (it divides)."""
+    for cname in CHECK_ACCUM_ENVS:
+        path = T.CHECK_ENVS[cname][0]
+        env = EnvA(ctx.repo, path, cname)
+        sl = env.slot("check_solution_validity")
+        n_acc = 0
+        for n in _all_nodes(sl):
+            if not (n.op == "loopvar" and n.id in vg.LOOP_BODY and _zero_init(n)):
+                continue
+            body = vg.LOOP_BODY[n.id]
+            pol = nf.polarity(body)
+            rel = {k: v for k, v in pol.items() if k in ACC_SIGN}
+            if not rel:
+                continue
+            n_acc += 1
+            wrong = {k: sorted(v) for k, v in rel.items() if v != {ACC_SIGN[k]}}
+            ctx.ob("C06.j", f"{cname}.checker:{n.args[0]}:direction", not wrong, sl.where,
+                   f"accumulator `{n.args[0]}` grows with {sorted(rel)}" if not wrong else
+                   f"accumulator `{n.args[0]}`: {wrong} enter with the wrong sign (expected " + ", ".join(f"{k}: {ACC_SIGN[k]:+d}" for k in wrong) + "): the simulated clock / load runs backwards, "
+                   "so violations of the limit go unnoticed", construct=f"{sl.fi.qualname}:accumulator-sign:{n.args[0]}")
+        if n_acc == 0:
+            from ..model import AnalysisError
+            raise AnalysisError(f"{cname}.check_solution_validity: no accumulator with a signed operand found")
 
 
 def _all_nodes(sl):
